@@ -1,7 +1,7 @@
 (* Obligation C05/cnt_pos_iff_read.  Statement as printed by Coq from Inferno.C05.ConnProofs; proof by reference.
    This file contains nothing else, so the statement cannot be weakened quietly. *)
 From Coq Require Import List ZArith Bool Arith Lia Reals.
-From Inferno Require Import Base.Num Base.NumR C05.Conn C05.ConnProofs.
+From Inferno Require Import Base.Num Base.NumR C05.Conn C05.ConnSpec C05.ConnProofs.
 Import ListNotations.
 Open Scope R_scope.
 Theorem cnt_pos_iff_read : forall (g : geom) (y s : nat),
